@@ -659,6 +659,65 @@ def gen_file_doc(rng, lang_sections, extra=("nunavut.lang.zz9",)):
     return doc
 
 
+_FILE_SEQ = [0]
+
+
+def scratch_yaml(ctx, rng, doc):
+    """Write a YAML document under a random directory / file name: the path order of the files of one run is
+    unrelated to the order in which they are handed to the builder."""
+    import yaml
+    _FILE_SEQ[0] += 1
+    d = ctx.scratch / ("d%02x" % rng.randrange(256))
+    d.mkdir(exist_ok=True)
+    p = d / ("%06x_%d.yaml" % (rng.randrange(16 ** 6), _FILE_SEQ[0]))
+    p.write_text(yaml.safe_dump(doc, sort_keys=False, allow_unicode=True), encoding="utf-8")
+    return p
+
+
+def builtin_sections_py():
+    from nunavut.lang._language import LanguageClassLoader
+    return LanguageClassLoader().config.sections()
+
+
+def group_keys(*defaults_maps):
+    keys = set()
+    for d in defaults_maps:
+        if isinstance(d, dict):
+            for g in d.values():
+                if isinstance(g, dict):
+                    keys.update(g.keys())
+    return keys
+
+
+def precedence_oracle(ctx, via, builtin, files, sec, overrides, final, lang, desc):
+    """Independent statement of the precedence on the real builder / CLI: at every path the files mention and at
+    which all sources are shape-compatible, the effective value is `pick` over
+    [built-in, files in CALL order, overrides] (last explicit, else last default-marked).  Options that a language
+    class rewrites afterwards (C++ shorthand groups, Python's forced asserts) are left to their own oracles."""
+    chain = [builtin] + list(files) + [{sec: overrides}]
+    skip = set()
+    if lang == "cpp":
+        skip = group_keys(builtin.get(sec, {}).get("defaults"), final.get(sec, {}).get("defaults")) | {"std"}
+    elif lang == "py":
+        skip = {"enable_serialization_asserts"}
+    paths = set()
+    for f in files:
+        paths.update(all_paths(f))
+    for p in sorted(paths):
+        if len(p) == 3 and p[0] == sec and p[1] == "options" and p[2] in skip:
+            continue
+        if all(compat(v, p) for v in chain):
+            want = pick([at(v, p) for v in chain])
+            got = at(final, p)
+            ctx.count("file_precedence_paths_" + via)
+            if not same(want, got):
+                ctx.fail({"kind": "file-precedence", "via": via},
+                         "effective value is not the one of the last source in call order (explicit over later file over earlier file over built-in)",
+                         dict(desc, path=list(p), files_in_call_order=[wire(f) for f in files],
+                              expected=wire(want) if want is not _ABSENT else None,
+                              observed=wire(got) if got is not _ABSENT else None))
+
+
 class BuilderRun:
     """One real LanguageContextBuilder driven by a random call sequence (and the same calls for the model)."""
 
@@ -696,18 +755,27 @@ class BuilderRun:
         b.set_target_language(self.lang)
         self.error = None
         self.ctx_obj = None
-        nfile = 0
+        self.paths = []
         try:
-            for c in seq:
+            i = 0
+            while i < len(seq):
+                c = seq[i]
                 if c[0] == "file":
-                    p = ctx.scratch / ("cfg_%d_%d.yaml" % (id(self) % 100000, nfile))
-                    nfile += 1
-                    p.write_text(yaml.safe_dump(c[1], sort_keys=False, allow_unicode=True), encoding="utf-8")
-                    self.ops.append("F" + wire(c[1]))
-                    b.add_config_files(p)
+                    # consecutive files go into ONE add_config_files call (as the CLI does) half of the time
+                    j = i + 1
+                    while j < len(seq) and seq[j][0] == "file" and rng.random() < 0.6:
+                        j += 1
+                    batch = []
+                    for c2 in seq[i:j]:
+                        batch.append(scratch_yaml(ctx, rng, c2[1]))
+                        self.ops.append("F" + wire(c2[1]))
+                    self.paths.append([str(x.relative_to(ctx.scratch)) for x in batch])
+                    b.add_config_files(*batch)
+                    i = j
                 else:
                     self.ops.append("O" + enc_atom(c[1]) + "=" + ("!" if c[2] is None else wire(c[2])))
                     b.set_target_language_configuration_override(c[1], c[2])
+                    i += 1
             self.ops.append("X" if cpp else ("P" if self.lang == "py" else "C"))
             self.ctx_obj = b.create()
         except Exception as e:  # noqa
@@ -747,6 +815,7 @@ def stream_builders(ctx, drv, rng):
             if m != g:
                 ctx.disagree("LanguageContextBuilder", {"ops": r.ops, "lang": r.lang}, m[:4000], g[:4000])
     # search: options object reported == configuration; interleaving independence on the real builder
+    builtin_py = builtin_sections_py()
     import yaml
     from nunavut.lang import LanguageContextBuilder
     for r in runs:
@@ -761,16 +830,19 @@ def stream_builders(ctx, drv, rng):
         # files first, then the other calls: must give the same configuration
         b = LanguageContextBuilder(include_experimental_languages=True)
         try:
-            for i, c in enumerate(r.files):
-                p = ctx.scratch / ("cfg_i_%d.yaml" % i)
-                p.write_text(yaml.safe_dump(c[1], sort_keys=False, allow_unicode=True), encoding="utf-8")
-                b.add_config_files(p)
+            b.add_config_files(*[scratch_yaml(ctx, rng, c[1]) for c in r.files])
             for c in r.others:
                 b.set_target_language_configuration_override(c[1], copy.deepcopy(c[2]))
             b.set_target_language(r.lang)
             other = wire(b.create().config.sections())
         except Exception as e:  # noqa
             other = cfg_exc_kind(e)
+        ovr = {}
+        for c in r.others:
+            if c[2] is not None:
+                ovr[c[1]] = c[2]
+        precedence_oracle(ctx, "builder", builtin_py, [c[1] for c in r.files], r.section, ovr, secs, r.lang,
+                          {"ops": r.ops, "file_paths_per_call": r.paths})
         ctx.count("interleavings_compared")
         if other != wire(secs):
             ctx.fail({"kind": "interleaving-dependence"}, "the configuration at create() depends on how add_config_files and override calls are interleaved",
@@ -814,6 +886,7 @@ def stream_cli(ctx, drv, rng):
     builtin = builtin_sections_wire()
     n = 60 if ctx.quick else 600
     nsub = 2 if ctx.quick else 12
+    builtin_py = builtin_sections_py()
     lines, impl, descs = [], [], []
     for i in range(n):
         lang = rng.choice(["c", "cpp", None])
@@ -841,14 +914,20 @@ def stream_cli(ctx, drv, rng):
             argv += ["--namespace-output-stem", stem]
         files = []
         sec = "nunavut.lang." + (lang or "c")
-        for j in range(rng.randint(0, 2)):
+        given = []
+        for j in range(rng.choice([0, 1, 2, 2, 3])):
             doc = gen_file_doc(rng, [sec], extra=())
-            p = ctx.scratch / ("cli_%d_%d.yaml" % (i, j))
-            p.write_text(yaml.safe_dump(doc, sort_keys=False), encoding="utf-8")
-            files.append((p, doc))
-        if files:
-            argv += ["--configuration"] + [str(p) for p, _ in files]
+            given.append((scratch_yaml(ctx, rng, doc), doc))
+        if given:
+            cut = rng.randrange(1, len(given)) if (len(given) > 1 and rng.random() < 0.2) else 0
+            if cut:   # the flag given twice: argparse keeps the last group only
+                argv += ["--configuration"] + [str(p) for p, _ in given[:cut]]
+            argv += ["--configuration"] + [str(p) for p, _ in given[cut:]]
         args = _make_parser().parse_args(argv)
+        bypath = {str(p): d for p, d in given}
+        cfgarg = args.configuration if args.configuration is not None else []
+        cfgarg = [cfgarg] if isinstance(cfgarg, __import__("pathlib").Path) else list(cfgarg)
+        files = [(p, bypath[str(p)]) for p in cfgarg]
         # model: the calls of _create_language_context, from the parsed arguments
         opts = {}
         if args.target_endianness is not None:
@@ -869,6 +948,13 @@ def stream_cli(ctx, drv, rng):
             runner._language_context = runner._create_language_context()
             secs = runner._language_context.config.sections()
             ans = "ok " + wire(secs)
+            ovr = {"options": opts}
+            if args.output_extension is not None:
+                ovr["extension"] = args.output_extension
+            if args.namespace_output_stem is not None:
+                ovr["namespace_file_stem"] = args.namespace_output_stem
+            precedence_oracle(ctx, "cli", builtin_py, [d for _, d in files], sec, ovr, secs, lang or "c",
+                              {"argv": [a if not a.startswith(str(ctx.scratch)) else a[len(str(ctx.scratch)) + 1:] for a in argv]})
             # the file's explicit value must survive a flag that was not given (issue #329)
             fileval = _ABSENT
             for _, d in files:
@@ -988,6 +1074,105 @@ def stream_cppstd(ctx, drv, rng):
                 ctx.disagree("cpp/_validate_language_options", d, m, g)
 
 
+def stream_cpp_shorthand_vs_files(ctx, rng):
+    """Failing-input search for "the shorthand sets its group as a unit": for an explicitly requested shorthand S and
+    every key k that ANY shorthand group sets, the effective value of k must not depend on what a configuration file
+    says about k (explicit CLI/API value over files + the group applied as a unit).  The whole table: every S x k,
+    file silent / file value A / file value B, through LanguageContextBuilder and through the CLI's
+    _create_language_context; one pair through a real `nnvg --list-configuration`."""
+    import yaml
+    from nunavut.cli import _make_parser
+    from nunavut.cli.runners import ArgparseRunner
+    from nunavut.lang import LanguageContextBuilder
+    sec = "nunavut.lang.cpp"
+    builtin = builtin_sections_py()
+    defaults = builtin.get(sec, {}).get("defaults", {})
+    groups = [g for g, body in defaults.items() if isinstance(body, dict)]
+    keys = sorted(group_keys(defaults))
+    ctx.extra["cpp_shorthand_table"] = {"groups": groups, "keys_set_by_any_group": keys}
+
+    def variants(k):
+        if k == "ctor_convention":
+            return ["uses-leading-allocator", "default"]
+        if k == "std":
+            return ["c++14", "c++20"]
+        vals = [g[k] for g in defaults.values() if isinstance(g, dict) and k in g] + [builtin[sec].get("options", {}).get(k)]
+        if any(isinstance(v, bool) for v in vals):
+            return [True, False]
+        return ["file_value_A", "file_value_B"]
+
+    def via_builder(S, doc):
+        b = LanguageContextBuilder(include_experimental_languages=True).set_target_language("cpp")
+        if doc is not None:
+            b.add_config_files(scratch_yaml(ctx, rng, doc))
+        b.set_target_language_configuration_override("options", {"std": S})
+        return b.create().get_target_language()
+
+    def via_cli(S, doc):
+        argv = ["--list-configuration", "--experimental-languages", "--target-language", "cpp", "--language-standard", S]
+        if doc is not None:
+            argv += ["--configuration", str(scratch_yaml(ctx, rng, doc))]
+        with contextlib.redirect_stderr(io.StringIO()):
+            args = _make_parser().parse_args(argv)
+        runner = ArgparseRunner.__new__(ArgparseRunner)
+        runner._args = args
+        return runner._create_language_context().get_target_language(), argv
+
+    def observe(f):
+        try:
+            return f()
+        except SystemExit:
+            return "not-a-cli-choice"
+        except Exception as e:  # noqa
+            return "raised " + cfg_exc_kind(e)
+
+    first_pair = None
+    for S in groups:
+        for k in keys:
+            docs = [None] + [{sec: {"options": {k: v}}} for v in variants(k)]
+            for via in ("builder", "cli"):
+                seen = []
+                for doc in docs:
+                    if via == "builder":
+                        r = observe(lambda: wire(via_builder(S, doc).get_option(k, _ABSENT)))
+                    else:
+                        r = observe(lambda: wire(via_cli(S, doc)[0].get_option(k, _ABSENT)))
+                    seen.append(r)
+                ctx.case(("shorthand-vs-file", via, S, k), True)
+                ctx.count("cpp_shorthand_vs_file_" + via)
+                if "not-a-cli-choice" in seen:
+                    ctx.count("cpp_shorthand_not_a_cli_choice")
+                    continue
+                if len(set(seen)) != 1:
+                    ctx.fail({"kind": "cpp-shorthand-depends-on-file", "via": via},
+                             "with an explicitly requested std shorthand, an option of the shorthand vocabulary keeps what a configuration file said (the group is not set as a unit)",
+                             {"shorthand": S, "option": k, "file_documents": [None if d is None else wire(d) for d in docs],
+                              "effective_values": seen})
+                    if first_pair is None:
+                        first_pair = (S, k, docs)
+    # one pair through the real command line (the pair that failed, else a fixed one)
+    S, k, docs = first_pair or (groups[-1] if groups else None, "variable_array_type_include", None)
+    if S is not None:
+        docs = docs or [None, {sec: {"options": {k: "file_value_A"}}}]
+        outs = []
+        for doc in docs[:2]:
+            argv = ["--list-configuration", "--experimental-languages", "--target-language", "cpp", "--language-standard", S]
+            if doc is not None:
+                argv += ["--configuration", str(scratch_yaml(ctx, rng, doc))]
+            env = dict(os.environ, PYTHONPATH=str(common.REPO / "src"))
+            p = subprocess.run([common.PY, "-m", "nunavut"] + argv, capture_output=True, text=True, timeout=120, env=env, cwd=str(ctx.scratch))
+            ctx.count("nnvg_subprocess_runs")
+            if p.returncode != 0:
+                outs.append("rc=%d" % p.returncode)
+            else:
+                dumped = yaml.load(p.stdout, Loader=yaml.UnsafeLoader)
+                outs.append(wire(at(dumped, (sec, "options", k))) if at(dumped, (sec, "options", k)) is not _ABSENT else "absent")
+        if "rc=2" not in outs and len(set(outs)) != 1:
+            ctx.fail({"kind": "cpp-shorthand-depends-on-file", "via": "nnvg"},
+                     "nnvg --list-configuration: with --language-standard <shorthand> an option of the shorthand vocabulary depends on the configuration file",
+                     {"shorthand": S, "option": k, "file_documents": [None if d is None else wire(d) for d in docs[:2]], "listed_values": outs})
+
+
 # ------------------------------------------------------------------------------------------------------
 def run(ctx: common.Ctx):
     try:
@@ -1016,6 +1201,7 @@ def run(ctx: common.Ctx):
     stream_cppstd(ctx, drv, rng)
     stream_builders(ctx, drv, rng)
     stream_cli(ctx, drv, rng)
+    stream_cpp_shorthand_vs_files(ctx, rng)
 
 
 def replay(ctx, path):
